@@ -115,14 +115,37 @@ def predicates_points(ctx):
         r3 = go.is_collinear(A, B, C)
     det3 = lambda x, y, z: geo.det([tolist(x), tolist(y), tolist(z)])
     ctx.ensure("is_collinear(3)<=>det=0", ctx.iff(ctx.conj([r3]) if ctx.symbolic else bool(r3), ctx.zero(det3(a, b, c))))
-    ctx.assume(ctx.neg(ctx.minors_zero(a, b)))
+    # no requirement on the first two points: coincident a, b (also the same object) must not make every d "collinear"
+    all_minors = ctx.conj([ctx.zero(det3(*t)) for t in itertools.combinations((a, b, c, d), 3)])
     with ctx.stubs():
         r4 = go.is_collinear(A, B, C, D)
-    ctx.ensure("is_collinear(4)<=>both-dets=0", ctx.iff(ctx.conj([r4]) if ctx.symbolic else bool(r4), ctx.conj([ctx.zero(det3(a, b, c)), ctx.zero(det3(a, b, d))])))
+    ctx.ensure("is_collinear(4)<=>rank<=2", ctx.iff(ctx.conj([r4]) if ctx.symbolic else bool(r4), all_minors))
     LA, LB, LC, LD = (geometer.Line(v) for v in (a, b, c, d))
     with ctx.stubs():
         r4 = go.is_concurrent(LA, LB, LC, LD)
-    ctx.ensure("is_concurrent(4)<=>both-dets=0", ctx.iff(ctx.conj([r4]) if ctx.symbolic else bool(r4), ctx.conj([ctx.zero(det3(a, b, c)), ctx.zero(det3(a, b, d))])))
+    ctx.ensure("is_concurrent(4)<=>rank<=2", ctx.iff(ctx.conj([r4]) if ctx.symbolic else bool(r4), all_minors))
+    with ctx.stubs():
+        try:
+            r4 = go.is_collinear(A, A, C, D)
+            ctx.ensure("is_collinear(a,a,c,d):same-object<=>a,c,d-collinear", ctx.iff(ctx.conj([r4]) if ctx.symbolic else bool(r4), ctx.zero(det3(a, c, d))))
+        except geometer.exceptions.GeometryException as e:
+            ctx.ensure("is_collinear(a,a,c,d):same-object<=>a,c,d-collinear", False, got=type(e).__name__)
+
+
+@case("C10", "predicates.points.3d", names("a", 4) + names("b", 4) + names("c", 4) + names("d", 4) + names("e", 4), mode="field",
+      functions=["geometer.operators.is_coplanar"], timeout=120, max_paths=400)
+def predicates_points_3d(ctx):
+    """five points of 3-space are coplanar iff their 5x4 coordinate matrix has rank <= 3 (all five 4x4 minors vanish)"""
+    geometer, go = _g()
+    vs = [ctx.vec(k, 4) for k in "abcde"]
+    P = [geometer.Point(v) for v in vs]
+    det4 = lambda *rows: geo.det([tolist(x) for x in rows])
+    with ctx.stubs():
+        r4 = go.is_coplanar(*P[:4])
+    ctx.ensure("is_coplanar(4)<=>det=0", ctx.iff(ctx.conj([r4]) if ctx.symbolic else bool(r4), ctx.zero(det4(*vs[:4]))))
+    with ctx.stubs():
+        r5 = go.is_coplanar(*P)
+    ctx.ensure("is_coplanar(5)<=>rank<=3", ctx.iff(ctx.conj([r5]) if ctx.symbolic else bool(r5), ctx.conj([ctx.zero(det4(*t)) for t in itertools.combinations(vs, 4)])))
 
 
 @case("C10", "is_cocircular.2d", names("a", 2) + names("b", 2) + names("c", 2) + names("d", 2), mode="real",
